@@ -39,7 +39,7 @@ CLAIMED = {
    "K <= 8 slices in quick, 40 in thorough; transactions are compared through the block hash (Merkle binding), not field by field.",
    "DESIGN.md §7 C13"),
  "C14": ("exploration",
-   "One real Repair::repair_loop repairs a block from 2-7 peers over the simulated network: real RepairRequestHandlers with/without the block, silent peers and liars (wrong variant, aliased/wrong indices, wrong root, mutated proofs, other block's material, alternative last-flag signing by a Byzantine leader, duplicates, unsolicited answers, delays), with loss/duplication/stragglers until a drawn stabilisation time. Checked: announced/stored data hashes to the requested id, no panic, dissemination data untouched, completion within 20*REPAIR_TIMEOUT after stabilisation while an honest peer holds the block, honest responder answers verify or NACK.",
+   "One real Repair::repair_loop repairs a block from 2-7 peers over the simulated network: real RepairRequestHandlers with/without the block, silent peers and liars (wrong variant, aliased/wrong indices, wrong root, mutated proofs, other block's material, alternative last-flag signing by a Byzantine leader, duplicates, unsolicited answers, delays), with loss/duplication/stragglers until a drawn stabilisation time. Checked: announced/stored data hashes to the requested id, no panic, dissemination data untouched, completion within 30*REPAIR_TIMEOUT after stabilisation while honest holders carry >= 30% of the peers' stake (requests go to 3 stake-weighted peers), honest responder answers verify or NACK.",
    "Runs are capped by delivered events (NACK re-requests can grow geometrically when no peer holds the block); capped runs are counted, not flagged. One block per run.",
    "DESIGN.md §7 C14"),
  "C15": ("exploration",
